@@ -32,6 +32,8 @@ const c11Shared = `(do
   (defmacro shared-mac (fn [x] (list '+ x 100)))
   (def spin (fn [n] (if (> n 0) (spin (- n 1)) nil)))
   (def tmp-helper (fn [x] (* x 1000)))
+  (def shared-atom (atom (vec (range 0 30))))
+  (def shared-atom2 (atom (list 1 "str" :k [2 3] {:only 1})))
   nil)`
 
 var c11Locals = []string{"a", "b", "c", "e", "x", "v", "n", "acc", "r", "f", "k", "tmp", "tmp2"}
@@ -103,6 +105,13 @@ var c11Templates = []struct {
 	{"memoize-closure-same-text", `(let [k N] (let [m (memoize (fn [x] (+ x k)))] (list (m 1) (m 2) (m 1))))`},
 	{"memoize-closure-same-text2", `(let [k N m (memoize (fn [x y] (list x y k)))] (do (spin 2) (list (m 1 2) (m 1 2))))`},
 	{"redefine-own-global", `(do (def T-acc 0) (def T-acc (+ T-acc N)) (spin 2) (def T-acc (+ T-acc 1)) T-acc)`},
+	// a shared atom is printed (a read) by several evaluations at once
+	{"print-shared-atom", `(list N (str shared-atom) (count (pr-str shared-atom2)))`},
+	{"print-shared-atom2", `(do (spin 1) (list (pr-str shared-atom) N (str "x" shared-atom2)))`},
+	{"deref-shared-atom", `(list (count @shared-atom) (nth @shared-atom2 1) N)`},
+	// a future that is cancelled while it is computing (its evaluation ends in the evaluator's cancellation branch)
+	{"cancel-busy-future", `(do (def T-long (fn [n] (if (> n 0) (T-long (- n 1)) :done))) (let [f (future (T-long 300))] (do (spin 2) (future-cancel f) (try @f (catch e nil)) N)))`},
+	{"cancel-busy-future2", `(let [f (future (do (spin 400) :done)) r (future-cancel f)] (do (try @f (catch e nil)) (spin 2) (list N)))`},
 	{"late-local-helper2", `((fn [] (do (def fut (future (do (sleep 2) (list (tmp-helper 1) (tmp-helper 3))))) (spin 2) (def tmp-helper (fn [x] (+ x N))) @fut)))`},
 }
 
